@@ -548,7 +548,12 @@ def _build_gate(case: dict, clk: list[int], nowbox: list[int]) -> tuple[Any, boo
                            replay_capacity=len(case["steps"]) + 4, enable_replay_cache=case["cache"])
     with _Injected(clk, 0) as inj:
         gate = proxy_proof_gate(cfg, now=lambda: nowbox[0])
-    return gate, (inj.hit or not case["cache"])
+    if inj.hit or not case["cache"]:
+        return gate, True
+    # The gate built no NonceCache although the configuration enables replay tracking (or builds it where the
+    # clock cannot be injected).  The case is still judged when no verdict in it depends on cache expiry: every
+    # step then happens within one skew of the first, where a remembered nonce must still be remembered.
+    return gate, sum(int(st_["dt"]) for st_ in case["steps"]) <= int(case["skew"])
 
 
 def run_gate(case: dict) -> Outcome:
